@@ -70,7 +70,7 @@ package signer
 //@ modifies each(j, 0, len(res.Responses), res.Responses[j].State)
 //@ ensures [states] forall j int :: 0 <= j && j < len(res.Responses) ==> res.Responses[j].State == old(res.Responses[j].State) || res.Responses[j].State == pb.ResponseState_DENIED || res.Responses[j].State == pb.ResponseState_FAILED
 //@ ensures [valid] (forall j int :: 0 <= j && j < len(res.Responses) ==> res.Responses[j].State != pb.ResponseState_DENIED && res.Responses[j].State != pb.ResponseState_FAILED) ==> (forall k int :: 0 <= k && k < len(req.Requests) ==> req.Requests[k] != nil)
-//@ loop #1
+//@ loop #1 over range req.GetRequests()
 //@ invariant [range] 0 <= _n && _n <= len(req.Requests)
 //@ invariant [valid] forall k int :: 0 <= k && k < _n ==> req.Requests[k] != nil
 //@ invariant [same] forall j int :: 0 <= j && j < len(res.Responses) ==> res.Responses[j].State == old(res.Responses[j].State)
@@ -81,7 +81,7 @@ package signer
 //@ modifies each(j, 0, len(res.Responses), res.Responses[j].State)
 //@ ensures [states] forall j int :: 0 <= j && j < len(res.Responses) ==> res.Responses[j].State == old(res.Responses[j].State) || res.Responses[j].State == pb.ResponseState_DENIED || res.Responses[j].State == pb.ResponseState_FAILED
 //@ ensures [valid] (forall j int :: 0 <= j && j < len(res.Responses) ==> res.Responses[j].State != pb.ResponseState_DENIED && res.Responses[j].State != pb.ResponseState_FAILED) ==> (forall k int :: 0 <= k && k < len(req.Requests) ==> req.Requests[k] != nil && req.Requests[k].Data != nil && req.Requests[k].Data.Source != nil && req.Requests[k].Data.Target != nil)
-//@ loop #1
+//@ loop #1 over range req.GetRequests()
 //@ invariant [range] 0 <= _n && _n <= len(req.Requests)
 //@ invariant [valid] forall k int :: 0 <= k && k < _n ==> req.Requests[k] != nil && req.Requests[k].Data != nil && req.Requests[k].Data.Source != nil && req.Requests[k].Data.Target != nil
 //@ invariant [same] forall j int :: 0 <= j && j < len(res.Responses) ==> res.Responses[j].State == old(res.Responses[j].State)
@@ -99,20 +99,20 @@ package signer
 //@ hint-after before:Multisign@1 [wire-data] forall j int :: 0 <= j && j < len(req.Requests) ==> reqData[j] != nil && (req.Requests[j] != nil ==> reqData[j].Domain == req.Requests[j].Domain && reqData[j].Data == req.Requests[j].Data)
 //@ hint-after before:Multisign@1 [wire-id] forall j int :: 0 <= j && j < len(req.Requests) ==> (req.Requests[j] != nil ==> accountNames[j] == signAcc(req.Requests[j]) && pubKeys[j] == signKeyOf(req.Requests[j]))
 //@ hint-after Multisign@1 [exact-req] forall i int :: 0 <= i && i < len(result0) && i < len(req.Requests) && result0[i] == core.ResultSucceeded ==> validSig(pkOfAcc(signerFor(h.signer, signAcc(req.Requests[i]), signKeyOf(req.Requests[i]))), genRootOfReq(req.Requests[i]), bytes(result1[i]))
-//@ loop #1
+//@ loop #1 over range req.GetRequests()
 //@ invariant [range] 0 <= _n && _n <= len(req.Requests) && res != nil && fresh(res) && len(res.Responses) == len(req.Requests) && fresh(res.Responses)
 //@ invariant [made] forall j int :: 0 <= j && j < _n ==> res.Responses[j] != nil && fresh(res.Responses[j]) && allocated(res.Responses[j]) && res.Responses[j].State == pb.ResponseState_UNKNOWN && res.Responses[j].Signature == nil
 //@ invariant [distinct] forall j int, k int :: 0 <= j && j < k && k < _n ==> res.Responses[j] != res.Responses[k]
-//@ loop #2
+//@ loop #2 over range req.GetRequests()
 //@ invariant [range] 0 <= _n && _n <= len(req.Requests)
 //@ invariant [passed] forall j int :: 0 <= j && j < _n ==> res.Responses[j].State != pb.ResponseState_DENIED && res.Responses[j].State != pb.ResponseState_FAILED
-//@ loop #3
+//@ loop #3 over range req.GetRequests()
 //@ invariant [range] 0 <= _n && _n <= len(req.Requests) && len(accountNames) == len(req.Requests) && len(pubKeys) == len(req.Requests) && len(reqData) == len(req.Requests) && fresh(accountNames) && fresh(pubKeys) && fresh(reqData)
 //@ invariant [domain] forall j int :: 0 <= j && j < _n ==> reqData[j] != nil && (reqData[j].Domain == nil || cap(reqData[j].Domain) >= 4)
 //@ invariant [rest] forall j int :: _n <= j && j < len(reqData) ==> reqData[j] == nil
 //@ invariant [wire-id] forall j int :: 0 <= j && j < _n ==> (req.Requests[j] != nil ==> accountNames[j] == signAcc(req.Requests[j]) && pubKeys[j] == signKeyOf(req.Requests[j]))
 //@ invariant [wire-data] forall j int :: 0 <= j && j < _n ==> fresh(reqData[j]) && allocated(reqData[j]) && (req.Requests[j] != nil ==> reqData[j].Domain == req.Requests[j].Domain && reqData[j].Data == req.Requests[j].Data)
-//@ loop #4
+//@ loop #4 over range results
 //@ invariant [range] 0 <= _n && _n <= len(results)
 //@ invariant [resps] len(res.Responses) == len(results) && (forall j int :: 0 <= j && j < len(res.Responses) ==> res.Responses[j] != nil && fresh(res.Responses[j]) && allocated(res.Responses[j])) && (forall j int, k int :: 0 <= j && j < k && k < len(res.Responses) ==> res.Responses[j] != res.Responses[k])
 //@ invariant [frame] unchangedField("pb.SignResponse", "State") && unchangedField("pb.SignResponse", "Signature")
@@ -136,20 +136,20 @@ package signer
 //@ hint-after before:SignBeaconAttestations@1 [wire-data] forall j int :: 0 <= j && j < len(req.Requests) ==> reqData[j] != nil && (req.Requests[j] != nil && req.Requests[j].Data != nil && req.Requests[j].Data.Source != nil && req.Requests[j].Data.Target != nil ==> reqData[j].Domain == req.Requests[j].Domain && reqData[j].Slot == req.Requests[j].Data.Slot && reqData[j].CommitteeIndex == req.Requests[j].Data.CommitteeIndex && reqData[j].BeaconBlockRoot == req.Requests[j].Data.BeaconBlockRoot && reqData[j].Source != nil && reqData[j].Target != nil && reqData[j].Source.Epoch == req.Requests[j].Data.Source.Epoch && reqData[j].Source.Root == req.Requests[j].Data.Source.Root && reqData[j].Target.Epoch == req.Requests[j].Data.Target.Epoch && reqData[j].Target.Root == req.Requests[j].Data.Target.Root)
 //@ hint-after before:SignBeaconAttestations@1 [wire-id] forall j int :: 0 <= j && j < len(req.Requests) ==> (req.Requests[j] != nil ==> accountNames[j] == attAcc(req.Requests[j]) && pubKeys[j] == attKeyOf(req.Requests[j]))
 //@ hint-after SignBeaconAttestations@1 [exact-req] forall i int :: 0 <= i && i < len(result0) && i < len(req.Requests) && result0[i] == core.ResultSucceeded ==> validSig(pkOfAcc(signerFor(h.signer, attAcc(req.Requests[i]), attKeyOf(req.Requests[i]))), attRootOfReq(req.Requests[i]), bytes(result1[i]))
-//@ loop #1
+//@ loop #1 over range req.GetRequests()
 //@ invariant [range] 0 <= _n && _n <= len(req.Requests) && res != nil && fresh(res) && len(res.Responses) == len(req.Requests) && fresh(res.Responses)
 //@ invariant [made] forall j int :: 0 <= j && j < _n ==> res.Responses[j] != nil && fresh(res.Responses[j]) && allocated(res.Responses[j]) && res.Responses[j].State == pb.ResponseState_UNKNOWN && res.Responses[j].Signature == nil
 //@ invariant [distinct] forall j int, k int :: 0 <= j && j < k && k < _n ==> res.Responses[j] != res.Responses[k]
-//@ loop #2
+//@ loop #2 over range req.GetRequests()
 //@ invariant [range] 0 <= _n && _n <= len(req.Requests)
 //@ invariant [passed] forall j int :: 0 <= j && j < _n ==> res.Responses[j].State != pb.ResponseState_DENIED && res.Responses[j].State != pb.ResponseState_FAILED
-//@ loop #3
+//@ loop #3 over range req.GetRequests()
 //@ invariant [range] 0 <= _n && _n <= len(req.Requests) && len(accountNames) == len(req.Requests) && len(pubKeys) == len(req.Requests) && len(reqData) == len(req.Requests) && fresh(accountNames) && fresh(pubKeys) && fresh(reqData)
 //@ invariant [domain] forall j int :: 0 <= j && j < _n ==> reqData[j] != nil && (reqData[j].Domain == nil || cap(reqData[j].Domain) >= 4)
 //@ invariant [rest] forall j int :: _n <= j && j < len(reqData) ==> reqData[j] == nil
 //@ invariant [wire-id] forall j int :: 0 <= j && j < _n ==> (req.Requests[j] != nil ==> accountNames[j] == attAcc(req.Requests[j]) && pubKeys[j] == attKeyOf(req.Requests[j]))
 //@ invariant [wire-data] forall j int :: 0 <= j && j < _n ==> fresh(reqData[j]) && allocated(reqData[j]) && fresh(reqData[j].Source) && fresh(reqData[j].Target) && allocated(reqData[j].Source) && allocated(reqData[j].Target) && reqData[j] != nil && reqData[j].Source != nil && reqData[j].Target != nil && (req.Requests[j] != nil && req.Requests[j].Data != nil && req.Requests[j].Data.Source != nil && req.Requests[j].Data.Target != nil ==> reqData[j].Domain == req.Requests[j].Domain && reqData[j].Slot == req.Requests[j].Data.Slot && reqData[j].CommitteeIndex == req.Requests[j].Data.CommitteeIndex && reqData[j].BeaconBlockRoot == req.Requests[j].Data.BeaconBlockRoot && reqData[j].Source != nil && reqData[j].Target != nil && reqData[j].Source.Epoch == req.Requests[j].Data.Source.Epoch && reqData[j].Source.Root == req.Requests[j].Data.Source.Root && reqData[j].Target.Epoch == req.Requests[j].Data.Target.Epoch && reqData[j].Target.Root == req.Requests[j].Data.Target.Root)
-//@ loop #4
+//@ loop #4 over range results
 //@ invariant [range] 0 <= _n && _n <= len(results)
 //@ invariant [resps] len(res.Responses) == len(results) && (forall j int :: 0 <= j && j < len(res.Responses) ==> res.Responses[j] != nil && fresh(res.Responses[j]) && allocated(res.Responses[j])) && (forall j int, k int :: 0 <= j && j < k && k < len(res.Responses) ==> res.Responses[j] != res.Responses[k])
 //@ invariant [frame] unchangedField("pb.SignResponse", "State") && unchangedField("pb.SignResponse", "Signature")
@@ -170,7 +170,7 @@ package signer
 //@ requires [options] forall i int :: 0 <= i && i < len(params) ==> params[i] != nil
 //@ ensures [err] result1 != nil ==> result0 == nil
 //@ ensures [ok] result1 == nil ==> result0 != nil && result0.signer != nil
-//@ loop #1
+//@ loop #1 over range params
 //@ invariant [range] 0 <= _n && _n <= len(params)
 
 //@ func New
